@@ -229,7 +229,22 @@ def P_early_then_late(ctx, t):
     call(ctx, t, "sendto", "ldl4", lambda: s.sendto(b"x", 21), sock=s)
 
 
-PROGRAMS = dict(ldl_recv=P_ldl_recv, ldl_poll=P_ldl_poll, dlc_client=P_dlc_client, dlc_client_name=P_dlc_client_name,
+def _rejected_client(sid):
+    # a connection that gets frame-rejected while the application waits in recv(): by the peer's FRMR, by an I PDU with
+    # a wrong N(S) (the local side sends FRMR) or by a connection-less PDU addressed to it - the socket shuts itself
+    # down; later the link ends.  The blocked call must come back in every case.
+    def prog(ctx, t):
+        s = nfc.llcp.Socket(ctx.llc, nfc.llcp.DATA_LINK_CONNECTION)
+        call(ctx, t, "connect", sid, lambda: s.connect(20), sock=s)
+        call(ctx, t, "recv", sid, s.recv, sock=s)
+        call(ctx, t, "recv", sid, s.recv, sock=s)
+    return prog
+
+
+P_dlc_frmr_peer, P_dlc_frmr_local, P_dlc_frmr_ui = _rejected_client("dlc7"), _rejected_client("dlc8"), _rejected_client("dlc9")
+
+PROGRAMS = dict(dlc_frmr_peer=P_dlc_frmr_peer, dlc_frmr_local=P_dlc_frmr_local, dlc_frmr_ui=P_dlc_frmr_ui,
+                ldl_recv=P_ldl_recv, ldl_poll=P_ldl_poll, dlc_client=P_dlc_client, dlc_client_name=P_dlc_client_name,
                 dlc_server=P_dlc_server, resolve=P_resolve, poll_send=P_poll_send,
                 dlc_poll_recv=P_dlc_poll_recv, dlc_poll_acks=P_dlc_poll_acks, dlc_poll_send=P_dlc_poll_send,
                 late_connect=P_late_connect, late_resolve=P_late_resolve, late_accept=P_late_accept,
@@ -243,6 +258,13 @@ def peer_for(progs, cut):
         # the peer connects to the DUT's named service (address 16: first free in the named range)
         script[3] = [pdu.Connect(16, 40, 128, 1)]
         script[6] = [pdu.Information(16, 40, 0, 0, b"ping")]
+    # frame rejects of an established connection (the DUT's client socket gets the first dynamic address, 32)
+    if "dlc_frmr_peer" in progs:
+        script[5] = [pdu.FrameReject(32, 20, 0x8, 12, 0, 0, 0, 0, 0, 0)]
+    if "dlc_frmr_local" in progs:
+        script[5] = [pdu.Information(32, 20, 7, 0, b"out of sequence")]
+    if "dlc_frmr_ui" in progs:
+        script[5] = [pdu.UnnumberedInformation(32, 20, b"datagram to a connection")]
     if "ldl_recv" in progs:
         script[4] = [pdu.UnnumberedInformation(33, 41, b"dgram1")]
     if "ldl_poll" in progs:
@@ -502,6 +524,7 @@ SCENARIOS_QUICK = [
     ("poll_send",), ("late_connect",), ("late_resolve",), ("late_accept",), ("late_recvfrom",),
     ("late_bound_recvfrom",), ("late_sendto",), ("early_then_late",),
     ("dlc_poll_recv",), ("dlc_poll_acks",), ("dlc_poll_send",),
+    ("dlc_frmr_peer",), ("dlc_frmr_local",), ("dlc_frmr_ui",),
     ("ldl_recv", "dlc_client"), ("dlc_server", "resolve"), ("ldl_poll", "dlc_client_name"),
 ]
 
